@@ -81,6 +81,36 @@ def run(ctx):
         d.update({("case_kind" if k == "kind" else k): v for k, v in c["desc"].items()})
         return d
 
+    # known findings (known_findings.json, property C09): exact triggers only
+    known = {f["key"]: f for f in vlib.known_findings("C09") if f.get("status") == "open"}
+    worst = {}
+
+    def known_key(c, fl, row):
+        if c["desc"]["kind"] != "S":
+            return None
+        curved = any(ch in c["desc"]["path"] for ch in "QC")
+        if fl == 64 and "Length() = NaN" in (c["desc"].get("panic") or "") and "Q" in c["desc"]["path"]:
+            return "length-nan-collinear-quad"
+        # accuracy only: every piece is a certified sub-curve, the pieces tile the input; deviation bounded
+        if curved and fl & ~(8 | 16) == 0 and 0 <= row[3] <= 60 and 0 <= row[4] <= 60:
+            return "arclength-accuracy-cusp-loop-inflection"
+        return None
+
+    rest = []
+    for (c, fl, names, pm), row in [(t, rows[cases.index(t[0])]) for t in prop_fail]:
+        k = known_key(c, fl & pm, row)
+        if k and k in known:
+            w = worst.setdefault(k, [c, 0, 0, 0])
+            w[1] += 1
+            if max(row[3], row[4]) >= w[2]:
+                w[0], w[2] = c, max(row[3], row[4])
+        else:
+            rest.append((c, fl, names, pm))
+    for k, (c, n, dev, _) in worst.items():
+        ctx.known_finding("%s (%d cases this run; e.g. %s cuts=%s, %s)" % (known[k]["what"], n, c["desc"]["path"], c["desc"].get("cuts"),
+                          "worst %d permille of Length beyond the 1 %% allowance" % dev if dev else c["desc"].get("panic")))
+    n_known = len(prop_fail) - len(rest)
+    prop_fail = rest
     prop_fail.sort(key=lambda t: (len(t[0]["desc"]["path"]), len(t[0]["desc"].get("cuts") or [])))
     seen = set()
     for c, fl, names, pm in prop_fail:
@@ -107,7 +137,7 @@ def run(ctx):
         evaluations=len(cases), distinct_nontrivial=len(nontrivial), distinct=len(distinct),
         rule="one evaluation = one path run through Reverse (x3), Length, Bounds, Closed (R) or through Length and SplitAt with a set of cut positions (S), judged by the Coq model/checker; distinct by (kind, path, cuts); non-trivial: R path with >= 3 records, S with >= 2 pieces or a curved piece segment",
         r_cases=nr, s_cases=ns, s_pieces=npieces, s_curved_piece_segments_certified=ncurved, winding_samples=nsamples,
-        masked_known_panics=len(masked),
+        masked_known_panics=len(masked), known_finding_cases=n_known,
         traces_validated_against_impl=len(cases), disagreements_checked=len(prop_fail) + len(tie_fail),
         families=fams, flag_counts=flagcount,
         theorems=pr["theorems"], assumptions_per_theorem=pr["assumptions"],
